@@ -95,6 +95,8 @@ def gen_case(rng, focus, big=False):
             run['lost'] = [t for t in range(n) if rng.random() < 0.3]
         runs.append(run)
     case['runs'] = runs
+    if nruns > 1 and rng.random() < 0.4:
+        case['reuse'] = True      # the same Scheduler object schedules every run
     return case
 
 
@@ -115,6 +117,10 @@ CORPUS = [
     {'n': 2, 'hard': [[], [0]], 'soft': [[], []], 'workers': 1, 'clock0': 9, 'started0': [1, 1],
      'init': [['FAILED', None, 1, 2], ['SKIPPED', None, None, None]],
      'runs': [{'outcomes': ['done', 'done'], 'strategy': 'uniform', 'seed': 8}]},
+    # C03: the same scheduler object schedules twice
+    {'n': 2, 'hard': [[], [0]], 'soft': [[], []], 'workers': 2, 'reuse': True,
+     'runs': [{'outcomes': ['done', 'done'], 'strategy': 'uniform', 'seed': 19},
+              {'outcomes': ['done', 'raise'], 'lost': [1], 'strategy': 'uniform', 'seed': 20}]},
     # C04: chain a <- b <- c, a's entry lost
     {'n': 3, 'hard': [[], [0], [1]], 'soft': [[], [], []], 'workers': 2,
      'runs': [{'outcomes': ['done', 'done', 'done'], 'strategy': 'uniform', 'seed': 9},
@@ -290,7 +296,7 @@ ORACLES = {'C01': oracle_c01, 'C02': oracle_c02, 'C03': oracle_c03, 'C04': oracl
 
 
 def brief(case):
-    return json.dumps({k: case[k] for k in ('n', 'hard', 'soft', 'workers')})
+    return json.dumps({k: case[k] for k in ('n', 'hard', 'soft', 'workers', 'reuse') if k in case})
 
 
 def replay_case(case, run):
